@@ -160,6 +160,7 @@ for _tag, _src, _def, _fn in (("base", PDS_BASE, {}, "ompl::base::PlannerDataSto
                           bound="graphs of <= 3 vertices and <= 3 edges (distinct endpoint pairs), all tags / marks / weights / contents", backend="cadical", timeout=900,
                           functions=[_fn + "::" + f for f in ("store(pd, ostream)", "load(istream, pd)", "storeVertices", "loadVertices", "storeEdges", "loadEdges")], canaries=_can))
 
+UNITS.append(D.wrapper_unit("c09_wrapper_forwarders"))
 ASSUMPTIONS = ["compound: component (de)serializers are addressed by index and touch exactly len_i bytes at the address they are given (leaf contract); <= 64 components, each <= 4096 bytes",
                "std::sort / std::binary_search / std::map::find are modelled by an insertion sort, a real binary search and the identity map (trusted helpers)",
                "space names are compared as ranks (only the order is used)"]
